@@ -23,9 +23,11 @@
 -/
 import NemoVerif.Lemmas.V1Struct
 import NemoVerif.Lemmas.V1Follow
+import NemoVerif.Lemmas.V1Sub
+import NemoVerif.Lemmas.V1Multi
 import NemoVerif.Generated.LlmFlowsV1
 namespace NemoVerif.C14
-open NemoVerif.V1Interp NemoVerif.V1Struct NemoVerif.V1Follow
+open NemoVerif.V1Interp NemoVerif.V1Struct NemoVerif.V1Follow NemoVerif.V1Sub NemoVerif.V1Multi
 
 /-- The compiler as the code has it (compile sub-blocks, then annotate every element of a loop body
     with `_next_on_break`/`_next_on_continue` unless an inner loop already did) computes the same
@@ -348,5 +350,184 @@ theorem closed_no_escape : ∀ (f : Nat) (p : Prog) (st : SSt), closed false p =
         · simp only [htr]; exact mapNe _ _ (ih r st hc.2)
     | brk r => simp [closed] at hc
     | cont r => simp [closed] at hc
+
+
+/-! ## Phase 4 (1): subflow calls follow the structured call / return discipline -/
+
+/-- **slide_with_subflows_simulates.**  `V1Struct.runS` is the structured meaning of a flow with `do` statements: run
+    the flow's own statements to the next step statement; at `do n` run the body of `n` as a callee — if the callee
+    runs to its end, control returns to the statement after the `do` (the same flow continues, `execFrom … a'`), if it
+    stops at a step statement the caller waits at the `do` and the callee's frame is pushed (recursively, so a
+    callee may itself wait for its own callee).  For EVERY library of subflow bodies known to the interpreter
+    (`LibOK`), every program `p` (arbitrary nesting of if/else, while, break/continue, `do`), every (re)start
+    position (`none` = first statement, `some a` = after the step at `a`), every interpreter state and every call
+    depth `g`: the mirror of `_slide_with_subflows` / `_call_subflow` returns exactly what the structured run says
+    (`Agrees`): the context and context updates, the uid counter, the pushed flow states *innermost first* (each
+    callee frame ACTIVE at the compiled position of its statement, or — waiting at a nested `do` — INTERRUPTED with
+    its head already past the call and `interrupted_by` = its callee's uid), the caller's own flow state (at its
+    step, or past the `do`, INTERRUPTED by the callee), that a flow which ran to its end reports a negative head,
+    and that the recorded next step is the one of the INNERMOST waiting flow (`nextOf`) — or the model's fixed fuel
+    ran out (`.error .oof`; the real code would not return). -/
+theorem slide_with_subflows_simulates (cfgs : Cfgs) (lib : Lib) (hlib : LibOK cfgs lib) (f g : Nat)
+    (ns : State) (fs : FS) (cfg : FlowCfg) (p : Prog) (start : Option Addr)
+    (hfind : cfgs.find fs.flowId = some cfg) (hel : cfg.elems = compile p) (hp : size p ≠ 0)
+    (hh : fs.head = startPos p start) :
+    slideWithSubflows true g cfgs ns fs = .error .oof ∨
+    Agrees cfgs ns fs p (slideWithSubflows true g cfgs ns fs)
+      (runS lib f g fs.uid fs.flowId ⟨ns.ctx, ns.upd⟩ ns.ctr p start) :=
+  slideWS_sim cfgs lib hlib f g ns fs cfg p start hfind hel hp hh
+
+/-- the library / flow configs of the non-vacuity examples: `main = user hi / do s / bot bye`, `s = user u1` -/
+def exMain : Prog := .step (.user "hi") (.step (.doFlow "s") (.step (.bot "bye") .nil))
+def exSub : Prog := .step (.user "u1") .nil
+def exLib : Lib := [("s", exSub)]
+def exCfgs : Cfgs := [mkCfg "main" exMain, { id := "s", elems := compile exSub, isSubflow := true }]
+
+/-- non-vacuity of `LibOK` -/
+example : LibOK exCfgs exLib := by
+  intro n q h
+  by_cases hn : n = "s"
+  · subst hn
+    simp [exLib, List.lookup] at h
+    subst h
+    exact ⟨by decide, { id := "s", elems := compile exSub, isSubflow := true }, by simp [exCfgs, Cfgs.find, mkCfg], rfl⟩
+  · have : (n == "s") = false := by simpa using hn
+    simp [exLib, List.lookup, this] at h
+
+/-- non-vacuity (finite facts): after `user hi` the call of `s` blocks — the caller waits at the `do` (address
+    `next here`), the callee frame (uid 7 = the counter) is pushed and it is the callee's statement that decides;
+    when `s` has finished, the run resumed after the `do` reaches the caller's own next statement `bot bye`. -/
+example :
+    runS exLib 20 5 3 "main" ⟨[], []⟩ 7 exMain (some .here)
+      = .wait ⟨[], []⟩ 8 (.next .here) (some 7) [{ uid := 7, name := "s", body := exSub, addr := .here, callee := none }] (7, "s", .user "u1") ∧
+    runS exLib 20 5 3 "main" ⟨[], []⟩ 8 exMain (some (.next .here))
+      = .wait ⟨[], []⟩ 8 (.next (.next .here)) none [] (3, "main", .bot "bye") := by
+  decide
+
+/-- **do_returns_after_call** (the return half of the discipline, at the level of the resume fix-point of
+    `compute_next_state`).  A pushed frame that waits at a `do` (`fr.callee = some u`) and whose callee `u` is
+    COMPLETED is resumed by the pass: it is made ACTIVE again and slid from its own head, which `_call_subflow` had
+    already moved past the `do` — i.e. from the (re)start position `some fr.addr` of `slide_with_subflows_simulates`,
+    so the run continues with the statement after the `do`. -/
+theorem do_returns_after_call (cfgs : Cfgs) (k : Nat) (ns : State) (i : Nat) (fr : SFrame) (u : Nat) (tgt : FS) (ch : Bool)
+    (hi : ns.flows[i]? = some fr.toFS) (hc : fr.callee = some u)
+    (ht : ns.flows.find? (fun g => g.uid == u) = some tgt) (hcomp : tgt.status = .completed) :
+    resumePass true (k + 1) cfgs ns i ch =
+      (match slideWithSubflows true SUB_FUEL cfgs ns
+          { uid := fr.uid, flowId := fr.name, head := startPos fr.body (some fr.addr), status := .active, interruptedBy := none } with
+       | .error e => .error e
+       | .ok (ns', fs') =>
+         resumePass true k cfgs { ns' with flows := setAt ns'.flows i (if fs'.head < 0 then { fs' with status := .completed } else fs') } (i + 1) true) := by
+  have hfs : fr.toFS = { uid := fr.uid, flowId := fr.name, head := ((off fr.body fr.addr : Nat) : Int) + 1, status := .interrupted, interruptedBy := some u } := by
+    simp [SFrame.toFS, hc]
+  rw [hfs] at hi
+  simp only [resumePass, hi, ht, hcomp, startPos]
+  simp
+  rfl
+
+/-! ## Phase 4 (2): several flows — the decision rule of `compute_next_state` -/
+
+/-- **decision_rule_max_priority.**  `_record_next_step` (modifier 1.0) called for any list of candidates — the
+    elements at the heads of any flows, in the order the flows are visited — records `pick old (best cands)`:
+    `best` is the FIRST actionable candidate of MAXIMAL flow priority (`best_is_first_max`), and it replaces a
+    previously recorded step iff that step's recorded priority is strictly smaller than `priority × 1.0`. -/
+theorem decision_rule_max_priority (cands : List Cand) (old : Option NextStep) :
+    recAll old cands = pick old (best cands) := recAll_rule cands old
+
+/-- **ties are resolved by flow order**: every candidate visited before the chosen one has a strictly smaller
+    priority (or is not actionable), every one after it a smaller or equal priority. -/
+theorem best_is_first_max (cands : List Cand) (b : Cand) (h : best cands = some b) :
+    ∃ l1 l2, cands = l1 ++ b :: l2 ∧ isActionable b.el = true ∧
+      (∀ c ∈ l1, isActionable c.el = true → c.prio < b.prio) ∧
+      (∀ c ∈ l2, isActionable c.el = true → c.prio ≤ b.prio) := best_spec cands b h
+
+/-- non-vacuity: three flows at actionable steps with priorities 1.0, 2.0, 2.0 — the second one (first of the maximal ones) decides -/
+example : recAll none [⟨.runAction "utter" (some "a") "" none, 1, 100⟩, ⟨.runAction "utter" (some "b") "" none, 2, 200⟩,
+      ⟨.runAction "utter" (some "c") "" none, 3, 200⟩]
+    = some { elem := .runAction "utter" (some "b") "" none, uid := 2, prio := 20000 } := by decide
+
+/-- `_record_next_step` of the interpreter IS `recNext` (any flow state, any element list with a valid head) -/
+theorem record_is_recNext (ns : State) (fs : FS) (cfg : FlowCfg) (el : Elem) (h : pyIndex cfg.elems fs.head = some el) :
+    recordNextStep ns fs cfg false = { ns with next := recNext ns.next el fs.uid cfg.prio } := record_eq ns fs cfg el h
+
+/-- **waiting_flow_yields.**  A flow that was NOT triggered by the event records its pending step with modifier 0.9;
+    any flow that decides on the event afterwards with a priority at least as high (equal included) replaces it. -/
+theorem waiting_flow_yields (el el' : Elem) (u u' p p' : Nat) (hp : 0 < p) (hge : p ≤ p') (ha : isActionable el' = true) :
+    recNext (some { elem := el, uid := u, prio := p * 90 }) el' u' p' = some { elem := el', uid := u', prio := p' * 100 } := by
+  have : p * 90 < p' * 100 := by omega
+  simp [recNext, ha, this]
+
+/-- **aborted_never_decides.**  A flow state that is ABORTED or COMPLETED has no influence on the next state at all,
+    for ARBITRARY flow lists and flow configs: `computeNextState` gives the same result with and without it (on every
+    event that is processed by the flows, i.e. other than StartInternalSystemAction / ContextUpdate, which leave the
+    flow states untouched). -/
+theorem aborted_never_decides (r : Bool) (cfgs : Cfgs) (st : State) (l1 l2 : List FS) (fs : FS) (cfg : FlowCfg) (ev : Event)
+    (hf : cfgs.find fs.flowId = some cfg) (hd : fs.status = .aborted ∨ fs.status = .completed)
+    (h1 : ev ≠ .startAction) (h2 : ∀ d, ev ≠ .contextUpdate d) :
+    computeNextState r cfgs { st with flows := l1 ++ fs :: l2 } ev = computeNextState r cfgs { st with flows := l1 ++ l2 } ev := by
+  have key : ∀ ns ext, advanceAll r cfgs ev (l1 ++ fs :: l2) ns ext = advanceAll r cfgs ev (l1 ++ l2) ns ext := by
+    intro ns ext
+    rw [advanceAll_append, advanceAll_append]
+    cases advanceAll r cfgs ev l1 ns ext with
+    | error e => rfl
+    | ok x =>
+      obtain ⟨ns', ext'⟩ := x
+      simp only [advanceAll, advanceOne_dead r cfgs ev ns' ext' fs cfg hf hd]
+  cases ev with
+  | startAction => exact absurd rfl h1
+  | contextUpdate d => exact absurd rfl (h2 d)
+  | userIntent i => simp only [computeNextState, key]
+  | botIntent i => simp only [computeNextState, key]
+  | actionFinished n ok => simp only [computeNextState, key]
+  | hidePrevTurn => simp only [computeNextState, key]
+  | other ty ps => simp only [computeNextState, key]
+
+/-- non-vacuity: an aborted flow state among two others -/
+example : computeNextState true witnessCfgs
+      { flows := [{ uid := 0, flowId := "f0", head := 1, status := .aborted }] } (.userIntent "greet")
+    = computeNextState true witnessCfgs { flows := [] } (.userIntent "greet") :=
+  aborted_never_decides true witnessCfgs {} [] [] { uid := 0, flowId := "f0", head := 1, status := .aborted }
+    { id := "f0", elems := compile (.step (.user "greet") (.ite (.var "c") (.step (.bot "a") .nil) .nil .nil)) } _
+    (by simp [witnessCfgs, Cfgs.find]) (.inl rfl) (by simp) (by simp)
+
+/-- **interrupted_flow_keeps_position**: whatever the event, an INTERRUPTED flow state is carried over unchanged by
+    the advance loop; and an ACTIVE flow waiting at a `user` statement (not actionable) that a triggering event does
+    not match becomes INTERRUPTED with its head unchanged (arbitrary flow configs). -/
+theorem interrupted_flow_keeps_position (r : Bool) (cfgs : Cfgs) (ev : Event) (ns : State) (ext : Bool) (fs : FS) (cfg : FlowCfg)
+    (hf : cfgs.find fs.flowId = some cfg) :
+    (fs.status = .interrupted → advanceOne r cfgs ev ns ext fs = .ok ({ ns with flows := ns.flows ++ [fs] }, ext)) ∧
+    (∀ el, fs.status = .active → pyIndex cfg.elems fs.head = some el → ev.triggers cfg.triggers = true →
+      isMatch el ev = false → isActionable el = false → cfg.isInterruptible = true →
+      advanceOne r cfgs ev ns ext fs = .ok ({ ns with flows := ns.flows ++ [{ fs with status := .interrupted }] }, ext)) :=
+  ⟨advanceOne_interrupted r cfgs ev ns ext fs cfg hf,
+   fun el ha hel htr hm hna hint => advanceOne_interrupts r cfgs ev ns ext fs cfg el hf ha hel htr hm hna hint⟩
+
+/-- **interruption_resumes_own_statement.**  In the resume fix-point, an INTERRUPTED flow whose interrupter is COMPLETED
+    — any position `i` of an arbitrary flow-state list, arbitrary flow configs — and which stands at a `user`
+    statement is made ACTIVE again at ITS OWN head: nothing is slid over, nothing is decided for it, the next
+    matching user intent continues the flow where it was interrupted. -/
+theorem interruption_resumes_own_statement (cfgs : Cfgs) (k : Nat) (ns : State) (i : Nat) (fs tgt : FS) (cfg : FlowCfg)
+    (n : Nat) (intent : String) (u : Nat) (ch : Bool)
+    (hi : ns.flows[i]? = some fs) (hs : fs.status = .interrupted) (hby : fs.interruptedBy = some u)
+    (ht : ns.flows.find? (fun g => g.uid == u) = some tgt) (hc : tgt.status = .completed)
+    (hf : cfgs.find fs.flowId = some cfg) (hh : fs.head = (n : Int)) (hel : cfg.elems[n]? = some (.userIntent intent)) :
+    resumePass true (k + 1) cfgs ns i ch =
+      resumePass true k cfgs { ns with flows := setAt ns.flows i { fs with status := .active, interruptedBy := none } } (i + 1) true := by
+  obtain ⟨uid, fid, head, status, iby⟩ := fs
+  simp only at hs hby hh hf
+  subst hs hby hh
+  have hsl := slideWS_at_user 63 cfgs ns { uid := uid, flowId := fid, head := (n : Int), status := .active, interruptedBy := none } cfg n intent hf rfl hel
+  have hnn : ¬ ((n : Int) < 0) := by omega
+  simp only [resumePass, hi, ht, hc]
+  simp only [SUB_FUEL]
+  simp [hsl, hnn]
+
+/-- **an aborted interrupter aborts the flows waiting for it** (same pass, arbitrary lists) -/
+theorem interrupter_aborted_aborts (cfgs : Cfgs) (k : Nat) (ns : State) (i : Nat) (fs tgt : FS) (u : Nat) (ch : Bool)
+    (hi : ns.flows[i]? = some fs) (hs : fs.status = .interrupted) (hby : fs.interruptedBy = some u)
+    (ht : ns.flows.find? (fun g => g.uid == u) = some tgt) (hc : tgt.status = .aborted) :
+    resumePass true (k + 1) cfgs ns i ch =
+      resumePass true k cfgs { ns with flows := setAt ns.flows i { fs with status := .aborted, interruptedBy := none } } (i + 1) true := by
+  simp [resumePass, hi, hs, hby, ht, hc]
 
 end NemoVerif.C14
